@@ -108,7 +108,8 @@ def cases(tier, rng):
 def model_cases(case_lines):
     # the model's writers accept everything at once: back-pressure plans exist on the implementation side only
     import re
-    return [re.sub(r" / [fb]wplan \S+ \S+", "", l) for l in case_lines]
+    # a client that comes back under its identity is the same client to the chain model (connections are FIFO queues per client)
+    return [re.sub(r" / reconn \d+", "", re.sub(r" / [fb]wplan \S+ \S+", "", l)) for l in case_lines]
 
 
 def canon(obs, line=None):
@@ -123,7 +124,12 @@ def canon(obs, line=None):
     return " ".join(toks)
 
 
-norm_impl = canon
+def norm_impl(obs, line=None):
+    if obs is not None and line is not None and line.split()[1] == "chain":
+        obs = " ".join(t for t in obs.split() if t != "c=ok")
+    return canon(obs, line)
+
+
 norm_model = canon
 
 
